@@ -45,17 +45,26 @@ type place struct {
 
 // places builds the two placements of the same content.
 func places(in []byte) (a, b *place) {
+	readerFirst := rt.Choose("readerfirst", 2) == 1
 	mk := func(before *fakeFile) *place {
 		cp := make([]byte, len(in))
 		copy(cp, in)
 		f := text.NewFile("f", cp)
 		var fs *parsley.FileSet
+		var rd *text.Reader
 		if before == nil {
 			fs = parsley.NewFileSet(f)
+			rd = text.NewReader(f)
+		} else if readerFirst {
+			// the reader exists before the file is given its place in the set
+			rd = text.NewReader(f)
+			fs = parsley.NewFileSet(before)
+			fs.AddFile(f)
+			rt.Cover("reader created before the file joined the set")
 		} else {
 			fs = parsley.NewFileSet(before, f)
+			rd = text.NewReader(f)
 		}
-		rd := text.NewReader(f)
 		return &place{ctx: parsley.NewContext(fs, rd), rd: rd, base: int(rd.Pos(0))}
 	}
 	a = mk(nil)
